@@ -35,6 +35,7 @@ type oracleInv struct {
 
 	snap    sim.Snapshot
 	mem     string
+	memNoNonce string
 	// statistics
 	byConsensus, byCarry, rejected, admittedOnly, counted int
 	classesInHistory                                        map[string]bool
@@ -105,6 +106,7 @@ func (o *oracleInv) Before(m *Machine, a *Action) {
 	if a.Kind == "price" {
 		o.snap = m.C.Snap(m.C.Ctx(), "oracle")
 		o.mem = sim.OracleMemDump()
+		o.memNoNonce = sim.OracleMemDumpNoNonce()
 	}
 }
 
@@ -355,7 +357,9 @@ func (o *oracleInv) price(m *Machine, a *Action, out Outcome) error {
 				return violation("C13.I4.uncounted-changed-state", "admitted but uncounted submission changed more than the validator's nonce: %s", e.String())
 			}
 		}
-		if memNow != o.mem {
+		// (the aggregator keeps an in-memory copy of each validator's nonces; that copy may move
+		// with the nonce, everything else must stay)
+		if sim.OracleMemDumpNoNonce() != o.memNoNonce {
 			return violation("C13.I4.uncounted-changed-memory", "admitted but uncounted submission (%s) changed the oracle's in-memory state", whyNot)
 		}
 		return nil
